@@ -17,6 +17,7 @@ import (
 	"compress/gzip"
 	"context"
 	"crypto/x509"
+	"errors"
 	"fmt"
 	"io"
 	"net"
@@ -83,6 +84,8 @@ type exch struct {
 	flush        bool
 	gz           bool
 	cl           bool // the client declares the request Content-Length
+	bf           int  // >= 0: the request body's Read fails after this many bytes
+	tw           int  // >= 0: this exchange is the HEAD twin of exchange tw (same handler script)
 }
 
 type scenario struct {
@@ -152,6 +155,13 @@ func parseScenario(op string) (scenario, bool) {
 			}
 		}
 		e.flush, e.gz, e.cl = get(fs, "fl") == "1", get(fs, "gz") == "1", get(fs, "cl") == "1"
+		e.bf, e.tw = -1, -1
+		if v := get(fs, "bf"); v != "" && v != "-" {
+			e.bf, _ = strconv.Atoi(v)
+		}
+		if v := get(fs, "tw"); v != "" && v != "-" {
+			e.tw, _ = strconv.Atoi(v)
+		}
 		if e.method == "" || !strings.HasPrefix(e.path, "/r") || e.status < 200 || e.status > 999 || e.bLen > 1<<20 || e.rbLen > 1<<20 {
 			return sc, false
 		}
@@ -203,9 +213,18 @@ type chunkReader struct {
 	data []byte
 	r    *vh.Rand
 	eof  func()
+	fail  int // >= 0: fail once this many bytes were handed out
+	done  int
+	delay time.Duration
 }
 
+var errBoom = errors.New("h3e: request body source failed")
+
 func (c *chunkReader) Read(p []byte) (int, error) {
+	if c.fail >= 0 && c.done >= c.fail {
+		time.Sleep(c.delay) // virtual: lets what was written so far reach the handler in about half of the cases
+		return 0, errBoom
+	}
 	if len(c.data) == 0 {
 		if c.eof != nil {
 			c.eof()
@@ -223,8 +242,12 @@ func (c *chunkReader) Read(p []byte) (int, error) {
 	if n > len(c.data) {
 		n = len(c.data)
 	}
+	if c.fail >= 0 && c.done+n > c.fail {
+		n = c.fail - c.done
+	}
 	copy(p, c.data[:n])
 	c.data = c.data[n:]
+	c.done += n
 	return n, nil
 }
 func (c *chunkReader) Close() error { return nil }
@@ -302,7 +325,7 @@ func runScenario(sc scenario) string {
 		body, err := readChunked(req.Body, r)
 		obs := fmt.Sprintf("srv m=%s p=%s h=%s b=%s t=%s", req.Method, req.RequestURI, obsHeader(req.Header), bodySig(body), obsHeader(req.Trailer))
 		if err != nil {
-			obs += " rerr=" + errStr(err)
+			obs += " rerr=1" // the handler's body read ended with an error (class not compared: it depends on timing)
 		}
 		mu.Lock()
 		srvObs[i] = obs
@@ -408,7 +431,7 @@ func runScenario(sc scenario) string {
 				}
 				hasBody := e.method == "POST" || e.method == "PUT"
 				if hasBody {
-					cr := &chunkReader{data: pattern(e.bLen, e.bSeed), r: r}
+					cr := &chunkReader{data: pattern(e.bLen, e.bSeed), r: r, fail: e.bf, delay: time.Duration(r.Intn(2)*(40+r.Intn(200))) * time.Millisecond}
 					if len(e.t) > 0 {
 						req.Trailer = http.Header{}
 						for _, x := range e.t {
@@ -442,7 +465,11 @@ func runScenario(sc scenario) string {
 				if len(info) > 0 {
 					is = strings.Join(info, ",")
 				}
-				cliObs[i] = fmt.Sprintf("cli st=%d i=%s h=%s b=%s t=%s err=%s", res.StatusCode, is, obsHeader(res.Header), bodySig(rb), obsHeader(res.Trailer), errStr(rerr))
+				clh := "-"
+				if v, ok := res.Header["Content-Length"]; ok && len(v) > 0 {
+					clh = v[0]
+				}
+				cliObs[i] = fmt.Sprintf("cli st=%d i=%s h=%s b=%s t=%s err=%s cl=%s", res.StatusCode, is, obsHeader(res.Header), bodySig(rb), obsHeader(res.Trailer), errStr(rerr), clh)
 			}(i)
 		}
 		wg.Wait()
@@ -557,8 +584,25 @@ func (rn *runner) GenOp(r *vh.Rand, i int) string {
 			}
 			return 0
 		}
-		fmt.Fprintf(&sb, " | m=%s p=%s h=%s b=%d:%d t=%s st=%d i=%s rh=%s rb=%d:%d rt=%s fl=%d gz=%d cl=%d",
-			e.method, e.path, fmtKVs(e.h), e.bLen, e.bSeed, fmtKVs(e.t), e.status, is, fmtKVs(e.rh), e.rbLen, e.rbSeed, fmtKVs(e.rt), b2i(e.flush), b2i(e.gz), b2i(e.cl))
+		bf, tw := "-", "-"
+		if hasBody && e.bLen > 0 && r.Chance(25) {
+			bf = strconv.Itoa(r.Intn(e.bLen))
+			e.t = nil
+		}
+		emit := func(e exch, bf, tw string) {
+			fmt.Fprintf(&sb, " | m=%s p=%s h=%s b=%d:%d t=%s st=%d i=%s rh=%s rb=%d:%d rt=%s fl=%d gz=%d cl=%d bf=%s tw=%s",
+				e.method, e.path, fmtKVs(e.h), e.bLen, e.bSeed, fmtKVs(e.t), e.status, is, fmtKVs(e.rh), e.rbLen, e.rbSeed, fmtKVs(e.rt), b2i(e.flush), b2i(e.gz), b2i(e.cl), bf, tw)
+		}
+		emit(e, bf, tw)
+		// HEAD twin of a GET: the same handler script, asked for with HEAD
+		if e.method == "GET" && !noBody && k+1 < n && r.Chance(45) {
+			h := e
+			h.method = "HEAD"
+			h.path = fmt.Sprintf("/r%d/%s", k+1, strings.SplitN(e.path, "/", 3)[2])
+			h.rt = nil
+			emit(h, "-", strconv.Itoa(k))
+			k++
+		}
 	}
 	return sb.String()
 }
